@@ -19,10 +19,18 @@ CLAIMED = {
         text="Lean theorems over a heap-of-vectors model with forwarding headers: well-formedness of every reachable heap, contents shared through every alias (old or new address) for all mutation histories, identity stable inside the stated envelope and unconditionally for non-relocating objects, the envelope is tight; D7 witness; regenerated native/scan tables proved equal to the model's; exact model and identity Spec both compared with the real VM on generated mutation histories with aliases in six kinds of location",
         note="Trusted: Lean kernel + standard axioms, translator rows, hand-written machine (checked by the listfwd stream), harness; C10_full is false on the pinned code (D7, known finding)",
         technique="Lean 4 invariant/refinement proofs over heap histories + generated tables + model/Spec/implementation three-way stream"),
+    "C13": dict(
+        text="Lean theorem C13_transparent: for property read, property write, invoke and super-invoke sites and every history of receivers (first execution, monomorphic, polymorphic, field shadowing a method, non-instances) the cached implementation does exactly what the slow path does, given frozen class tables and no reuse of a cached class address (witness theorem shows the envelope is needed); slot ids of a compile are distinct and in range; site-history programs with expected output from the slow-path rules run with caches on, forced off (hook) and under full collections at every allocation with classes created and dropped at run time; generated programs and fixtures caches-on vs caches-off",
+        note="Trusted: Lean kernel + standard axioms, hand-written cache model (tied by the cache-off differential and the site-history programs), cache-off hook; address reuse after collection (D16) is searched, not excluded by proof; REPL cache replacement is C19's known finding D13",
+        technique="Lean 4 history-transparency proof of the cache state machines + cache-off differential and site-history streams"),
     "C14": dict(
         text="Lean theorems over all 2^64 bit patterns with constants and method bodies regenerated from value.rs: round-trip, injectivity, class disjointness, kind/test agreement, arithmetic NaNs are numbers, equality agreement outside the exactly stated excluded set (and real difference on it), hash consistency; witnesses for D8; value engine in both builds vs model and Spec on boundary patterns; generated programs and the fixture corpus diffed across both builds",
         note="Trusted: Lean kernel + standard axioms, gen_nanbox translator (typed expression translation of value.rs), harness built in both feature configurations; IEEE semantics of f64 shared by Rust and Lean Float for the spec cross-check",
         technique="Lean 4 proofs over BitVec/Nat bit patterns with generated definitions + two-build differential streams"),
+    "C11": dict(
+        text="Lean theorems unbounded in length/index/history: index normalisation iff-characterisation, slices = drop/take with clamped bounds, every list operation sequence (incl. capacity-crossing relocations) refines the List operations with no write outside the allocation and failing ops leaving the receiver unchanged, tuples, strings by character, maps refine finite maps, iterator sources/terminals/adaptors equal the stream functions with callbacks left to right and short circuits; generated signature table; op sequences per receiver kind rendered for the Lean model/Spec engines and as Laythe programs, exhaustive boundary indices for lengths 0-4, multi-byte strings, raising/mutating callbacks, GC schedules",
+        note="Trusted: Lean kernel + standard axioms, gen_coll_signatures translator, hand-written native models (tied by the streams); split characterisation, n-ary zip/chain, until and sort are not proved; six known findings (D40-D45)",
+        technique="Lean 4 refinement proofs of collection natives against List/finite-map/stream specifications + model/Spec/implementation op-sequence streams"),
     "C12": dict(
         text="Lean theorem C12_preserves: for every instruction semantics satisfying the local laws, every well-delimited stream, every entry/label, all states and fuel, optimised = original; label-restart and line theorems; rule table proved equal to the one regenerated from peephole.rs; model tied to the real peephole_optimize on exhaustive windows, random streams and every fixture function; implementation output judged by an executable free-semantics Spec",
         note="Trusted: Lean kernel + the three standard axioms, translator rows for byte_code.rs/peephole.rs, hand-written optimiser model (checked against peephole_optimize through the cfg hook), free semantics as Spec; the local laws are proved for the free semantics, not for ops.rs",
@@ -55,6 +63,10 @@ CLAIMED = {
         text="Lean theorems (same allocator model as C05): along every history and schedule two reachable strings are the same object iff their contents are equal, no table key dangles, a hit returns the requested content, a miss means no reachable equal string; allocator stream with intern operations judged by a content monitor; generated string-producing expression pairs compared with ==, as map keys and via has/index under collection schedules",
         note="Trusted: as C05; the single entry point (every string allocation goes through manage_str) is an assumption of the model",
         technique="Lean 4 invariant proof over histories + allocator correspondence stream + schedule differential on string programs"),
+    "C15": dict(
+        text="Lean theorems: scanner total on every input (one final EOF, tokens inside the input, disjoint, increasing, unterminated strings become error tokens), every declaration-loop iteration incl. synchronize consumes a token so parsing terminates, by decide over the regenerated table every u8/u16 narrowing is guarded or explicitly listed as unguarded (each listed one proved unguarded and tested for reachability), a clean resolver run implies the compiler reaches no lookup panic for every scoping-event sequence (AST level inside a decidable envelope with witnesses at its boundary); scanner model vs real diagnostics, 15 malformed-input families through compile-only and run paths judged by outcome rules, contract stream, boundary counts, nesting depths, REPL sessions",
+        note="Trusted: Lean kernel + standard axioms, translate_c15.py, hand-written scanner/loop/contract models; the parser grammar (~2300 lines) and code generation are sampled by the malformed stream, not modelled; known findings D21, D151-D155",
+        technique="Lean 4 totality/progress proofs for scanner and declaration loop + decide over generated narrowing table + malformed-input outcome stream"),
     "C16": dict(
         text="Lean theorems: signature check soundness for all arities and argument lists; by decide +kernel over the table of all natives regenerated from laythe_lib, every body unwrap site is justified by the declared signature, receiver convention or a dominating test, except an explicit list of known-bad rows each proved to really fail; committed lists of callback-result unwraps and stack-less callback natives; frame limit invariant with the exact bypass witness; non-callable dispatch table; real signature checker compared with the model, native x argument-kind matrix through real programs in isolated workers (debug and release), recursion shapes, error-in-handler shapes",
         note="Trusted: Lean kernel + standard axioms, translate_natives.py (text scan of native bodies), harness workers; host panics and memory faults are runtime behaviour: the model predicts where they cannot happen, the streams search for the rest; many genuine crashes are known findings",
